@@ -45,6 +45,13 @@ Transition(a, b) ==
    ELSE IF ~Known(a) \/ ~Known(b) THEN UNKNOWN
    ELSE Mk(Ini(a), Fin(b), B(Ini(a) # Fin(b)))
 
+\* level-sensitive latch (logic.mv_latch / bp8v_latch): transparent while t is high; the initial value is d's initial
+\* value if t starts high, else the previous output's final value; the final value is d's final value if t ends
+\* high, else the latched initial value; unknown control, or unknown data while not firmly closed, gives X
+Latch8(d, t, q) == IF ~Known(t) \/ (~Known(d) /\ t # ZERO) THEN UNKNOWN
+                   ELSE LET i == IF Ini(t) = 1 THEN Ini(d) ELSE Fin(q)
+                            f == IF Fin(t) = 1 THEN Fin(d) ELSE i
+                        IN Mk(i, f, B(i # f))
 \* information order: X and - may be refined to 0 or 1, everything else only to itself
 Compl(v) == IF Known(v) THEN {v} ELSE {ZERO, ONE}
 
